@@ -144,3 +144,75 @@ def second_order(rng, h, directed=False):
         h.add_node(n)
         h.set_node_metadata(n, nodes[n])
     return "cleared-and-rebuilt", h
+
+
+def degree_preserving_swap(rng, h, directed=False, tries=40, keep_connected=False):
+    """Double hyperedge swap, in place: two hyperedges exchange one node each (a in e1 only, b in e2 only), so that the number
+    of nodes, the number of hyperedges, EVERY node's degree (also per size) and the size of every hyperedge stay what they
+    were, while the hyperedges themselves change.  Four edits (two removals, two insertions) with no query in between: a
+    memo validated by counts, degree sequences or size distributions survives it.  Returns a description or None."""
+    edges = list(h.get_edges())
+    if len(edges) < 2:
+        return None
+    n_nodes = len(h.get_nodes())
+    for _ in range(tries):
+        e1, e2 = rng.sample(edges, 2)
+        if directed:
+            side = rng.randrange(2)
+            s1, s2 = set(e1[side]), set(e2[side])
+            all1, all2 = set(e1[0]) | set(e1[1]), set(e2[0]) | set(e2[1])
+            A, B = sorted(s1 - all2, key=repr), sorted(s2 - all1, key=repr)
+            if not A or not B:
+                continue
+            a, b = rng.choice(A), rng.choice(B)
+            n1 = list(map(set, e1))
+            n2 = list(map(set, e2))
+            n1[side] = (n1[side] - {a}) | {b}
+            n2[side] = (n2[side] - {b}) | {a}
+            n1 = (tuple(sorted(n1[0])), tuple(sorted(n1[1])))
+            n2 = (tuple(sorted(n2[0])), tuple(sorted(n2[1])))
+        else:
+            A, B = sorted(set(e1) - set(e2), key=repr), sorted(set(e2) - set(e1), key=repr)
+            if not A or not B:
+                continue
+            a, b = rng.choice(A), rng.choice(B)
+            n1 = tuple(sorted((set(e1) - {a}) | {b}))
+            n2 = tuple(sorted((set(e2) - {b}) | {a}))
+        if n1 == n2 or h.check_edge(n1) or h.check_edge(n2):
+            continue
+        w1, w2 = h.get_weight(e1), h.get_weight(e2)
+        m1, m2 = h.get_edge_metadata(e1), h.get_edge_metadata(e2)
+        wd = h.is_weighted()
+        h.remove_edge(e1)
+        h.remove_edge(e2)
+        h.add_edge(n1, weight=w1 if wd else None, metadata=dict(m1))
+        h.add_edge(n2, weight=w2 if wd else None, metadata=dict(m2))
+        if keep_connected and not (connected_ref(h) and len(h.get_nodes()) == n_nodes):
+            h.remove_edge(n1)
+            h.remove_edge(n2)
+            h.add_edge(e1, weight=w1 if wd else None, metadata=dict(m1))
+            h.add_edge(e2, weight=w2 if wd else None, metadata=dict(m2))
+            continue
+        return {"swapped": (e1, e2), "into": (n1, n2)}
+    return None
+
+
+def rebuilt(h, directed=False):
+    """A NEW object with the content of h (same node order, same insertion order of the hyperedges), built through the public
+    constructor and insertion calls - not a copy: it shares no memo, id counter or registry entry with h."""
+    g = type(h)(weighted=h.is_weighted())
+    for n in h.get_nodes():
+        g.add_node(n, dict(h.get_node_metadata(n)))
+    for e in h.get_edges():
+        g.add_edge(e, weight=h.get_weight(e) if h.is_weighted() else None, metadata=dict(h.get_edge_metadata(e)))
+    return g
+
+
+def twin(rng, h, directed=False, keep_connected=False):
+    """A second, independent object over the same node labels whose node degrees, hyperedge count and size distribution equal
+    h's while its hyperedges differ (a rebuilt h after a double swap).  Both objects stay alive: whatever is remembered per
+    label, per count or per class rather than per object answers for the wrong one.  None when no swap is possible."""
+    g = rebuilt(h, directed)
+    if degree_preserving_swap(rng, g, directed=directed, keep_connected=keep_connected) is None:
+        return None
+    return g
